@@ -140,6 +140,20 @@ def _r1(model, res, m, c, methods, store):
                           case=src(it), func=c.name + '.emit')
         # (b) every listener is called: no break/return inside the loop, call unconditional
         early = [n for n in walk_no_defs(lp) if isinstance(n, (ast.Break, ast.Return))]
+        # a `continue`, or a delivery call nested under a condition, skips some listener of the snapshot
+        skips = [n for n in walk_no_defs(lp) if isinstance(n, ast.Continue)]
+        par = m.parent(call)
+        while par is not None and par is not lp:
+            if isinstance(par, (ast.If, ast.IfExp, ast.While, ast.Try, ast.BoolOp)) and not isinstance(par, ast.Try):
+                skips.append(par)
+            par = m.parent(par)
+        res.ob('R1', site, 'every listener of the snapshot is called unconditionally', not skips,
+               '; '.join(src(x)[:60] for x in skips))
+        if skips:
+            res.violation('R1', '%s:%s.emit:conditional-delivery' % (m.name, c.name), m.where(skips[0]),
+                          'the delivery loop skips listeners under a condition (%s): a listener removed (or otherwise excluded) while the emit is '
+                          'in progress is not called although removals take effect from the next emit only' % src(skips[0])[:80],
+                          func=c.name + '.emit')
         res.ob('R1', site, 'no early exit from the delivery loop', not early)
         if early:
             res.violation('R1', '%s:%s.emit:early-exit' % (m.name, c.name), m.where(early[0]),
